@@ -23,10 +23,11 @@ CFG = {
                   "panics on LowerExp-shaped text, returns ordinary_magnitude inside the -4..6 window and a value-preserving "
                   "RFC 8259 e±NN re-spelling outside it (yq_reformat_value_preserving, full); format_number_jq_compat is "
                   "value- and sign-preserving and emits a strict RFC 8259 number for every literal of the lenient grammar, "
-                  "with or without exponent, with ≤ cap+1 significant digits and non-saturating i128 exponent arithmetic, "
-                  "for both classes (finite non-zero / zero) the parser can assign (jq_literal_value_preserving, full; one "
-                  "lemma per Rust helper in Proof/NumFmtExp.lean); the cap side condition is shown necessary "
-                  "(jq_literal_cap_truncates, finding F-C10-1). Outside the theorem (and outside the property's 'finite double' "
+                  "with or without exponent, with non-saturating i128 exponent arithmetic: no digit bound for literals that parse to "
+                  "a finite non-zero double (after the fix of F-C10-1), ≤ cap+1 significant digits for zero-valued ones and for the "
+                  "bounded preview variant (jq_literal_value_preserving, jq_literal_preview_value_preserving, full; one "
+                  "lemma per Rust helper in Proof/NumFmtExp.lean); the cap side condition is shown necessary where it remains "
+                  "(jq_literal_cap_truncates). Outside the theorem (and outside the property's 'finite double' "
                   "domain): f64-overflowing literals (helper lemma only), saturated exponents, >cap+1 digits.",
     "level_note": "The round trip of a double itself rests on trusted Rust core: f64 Display/LowerExp print a decimal that "
                   "str::parse::<f64> maps back to the same double, and parsing is a function of the decimal's exact value; "
@@ -44,10 +45,11 @@ CFG = {
     "generated": ["C10:"],
     "required_theorems": ["SV.Props.C10.i64_print_exact", "SV.Props.C10.with_fraction_value_preserving",
                           "SV.Props.C10.jq_literal_value_preserving_partial", "SV.Props.C10.jq_literal_cap_truncates",
-                          "SV.Props.C10.yq_reformat_value_preserving", "SV.Props.C10.jq_literal_value_preserving", "SV.Props.C10.json_number_grammar_iff"],
+                          "SV.Props.C10.yq_reformat_value_preserving", "SV.Props.C10.jq_literal_value_preserving", "SV.Props.C10.jq_literal_preview_value_preserving",
+                          "SV.Props.C10.json_number_grammar_iff"],
     "nontrivial": _c10_nontrivial,
     "rule": "request = one number through one printer route (i64 | wf/yq: a double given by its bits + the two core "
-            "strings | lit/fnb: a literal | norm: normalize_extreme_literal_mantissa with a cap | tag: resolve_plain kind); "
+            "strings | lit/fnb: a literal | prev: error-message preview of a literal | norm: normalize_extreme_literal_mantissa with a cap | tag: resolve_plain kind); "
             "distinct request lines whose number is not 0/empty and whose answer carries an oracle verdict",
     "explanation": "Lean theorems: printers' re-spellings are value-preserving on exact decimals and stay in the reader grammar; "
                    "correspondence: Rust strings = model strings for write_i64, format_float_with_fraction, format_float_yq, "
